@@ -1137,9 +1137,28 @@ where
 
     let mut rest = input.split(length)?;
     let cie_offset_base = rest.offset_from(section.section());
-    let cie_id_or_offset = match Section::cie_offset_encoding(format) {
-        CieOffsetEncoding::U32 => rest.read_u32().map(u64::from)?,
-        CieOffsetEncoding::U64 => rest.read_u64()?,
+    let cie_id_or_offset = if Section::has_zero_terminator() {
+        // `.eh_frame` CIE pointers are relative to the field itself and never relocated.
+        match Section::cie_offset_encoding(format) {
+            CieOffsetEncoding::U32 => rest.read_u32().map(u64::from)?,
+            CieOffsetEncoding::U64 => rest.read_u64()?,
+        }
+    } else {
+        // The `.debug_frame` CIE pointer is an offset into the section, which is
+        // relocated in object files, so it must be read as an offset for
+        // `RelocateReader` to see it. The CIE id itself is never relocated (and
+        // the 64-bit id does not fit a 32-bit offset), so check for it first.
+        let mut id_input = rest.clone();
+        let id = match Section::cie_offset_encoding(format) {
+            CieOffsetEncoding::U32 => id_input.read_u32().map(u64::from)?,
+            CieOffsetEncoding::U64 => id_input.read_u64()?,
+        };
+        if Section::is_cie(format, id) {
+            rest = id_input;
+            id
+        } else {
+            rest.read_offset(format)?.into_u64()
+        }
     };
 
     Ok(Some(CfiEntryPrefix {
